@@ -14,7 +14,8 @@ LEVEL_TEXT = ("Every CREATE [OR REPLACE] TYPE AS ENUM (1..4 values, two glue sty
               "CREATE DATABASE (+- IF NOT EXISTS, +- COMMENT) and CREATE [BIGFILE|SMALLFILE] [TEMPORARY] TABLESPACE, for 3 name forms and "
               "3 schema forms, alone, before another statement and followed by a table using the type, is parsed by the real library and "
               "compared with the entity it was rendered from."
-              " Entity names that coincide with grammar keywords (schema, key, type, database, index, comment, domain) are enumerated for every kind.")
+              " Entity names that coincide with grammar keywords (schema, key, type, database, index, comment, domain) are enumerated for every kind."
+              " Two declarations of the same kind in one script must equal their stand-alone entities.")
 LEVEL_NOTE = "Name forms: plain, Mixed, \"Dq\"; schemas: none, s1, \"S2\". Expected entities transcribed from the property statement and README."
 RULE = ("case = (declaration, context); expected entity keys known by construction (compared as a subset of the reported entity); "
         "non-trivial = every case; distinct by rendered DDL")
